@@ -494,6 +494,8 @@ impl AddressLookupServices {
                 service.publish(data)
             }
         }
+        #[cfg(iroh_verif)]
+        iroh_base::verif::pause("address_lookup.add.before_push");
         self.services.write().expect("poisoned").push(service);
     }
 
@@ -519,11 +521,15 @@ impl AddressLookupServices {
             Some(filter) => data.apply_filter(filter),
             None => Cow::Borrowed(data),
         };
+        #[cfg(iroh_verif)]
+        iroh_base::verif::pause("address_lookup.publish.start");
         let services = self.services.read().expect("poisoned");
         for service in &*services {
             service.publish(&data);
         }
 
+        #[cfg(iroh_verif)]
+        iroh_base::verif::pause("address_lookup.publish.before_store");
         self.last_data
             .write()
             .expect("poisoned")
